@@ -160,6 +160,9 @@ def box_around_point(p, dist):
     eps = 1e-9 * (1 + d)
     lat_b, lat_t = degrees(latr - d - eps), degrees(latr + d + eps)
     lon_l, lon_r = lon - degrees(dlon + eps), lon + degrees(dlon + eps)
+    if lon_l < -180.0 or lon_r > 180.0:
+        # The disc straddles the antimeridian: one interval of longitudes in [-180, 180] cannot enclose it
+        lon_l, lon_r = -180.0, 180.0
     return lat_b, lon_l, lat_t, lon_r
 
 
